@@ -1082,7 +1082,7 @@ func ruleErrorsConsumed(c *Ctx, prop string) {
 								continue
 							}
 							failEdge := cmp.Op == token.NEQ // true edge is the failing one for !=
-							if c.edgeRejects(iff, failEdge) || c.errorFlowsToReturn(ev, f) {
+							if c.edgeRejects(iff, failEdge) || c.errorFlowsToReturn(ev, f) || c.failEdgeRetested(iff, failEdge, ev) {
 								continue
 							}
 							per[fname(f)]++
@@ -1963,4 +1963,42 @@ func (c *Ctx) insertWithReplaceTable(f *ssa.Function) (known bool, bad string) {
 		return false, ""
 	}
 	return true, ""
+}
+
+// failEdgeRetested: the failing edge of a nil test of ev runs (through jumps) into a second nil test of a value
+// merged from ev, whose failing edge refuses (err := f(); if err == nil { err = g() }; if err != nil { return ... }).
+func (c *Ctx) failEdgeRetested(iff *ssa.If, failEdge bool, ev ssa.Value) bool {
+	s := iff.Block().Succs[1]
+	if failEdge {
+		s = iff.Block().Succs[0]
+	}
+	for d := 0; d < 4 && len(s.Instrs) > 0; d++ {
+		switch last := s.Instrs[len(s.Instrs)-1].(type) {
+		case *ssa.Jump:
+			s = s.Succs[0]
+			continue
+		case *ssa.If:
+			bo, ok := last.Cond.(*ssa.BinOp)
+			if !ok || !(bo.Op == token.NEQ || bo.Op == token.EQL) {
+				return false
+			}
+			tested := bo.X
+			if isNilConst(bo.X) {
+				tested = bo.Y
+			} else if !isNilConst(bo.Y) {
+				return false
+			}
+			merged := tested == ev
+			if phi, ok := tested.(*ssa.Phi); ok {
+				for _, e := range phi.Edges {
+					if e == ev {
+						merged = true
+					}
+				}
+			}
+			return merged && c.edgeRejects(last, bo.Op == token.NEQ)
+		}
+		return false
+	}
+	return false
 }
